@@ -36,7 +36,9 @@ __all__ = ["get_children_of_type", "get_parent_of_type", "get_model", "get_metam
 T = TypeVar("T")
 
 
-def textx_isinstance(obj: Any, obj_cls: type[Any]) -> bool:
+def textx_isinstance(
+    obj: Any, obj_cls: type[Any], _visited: set[int] | None = None
+) -> bool:
     """
     This function determines, if a textx object is an instance of a
      textx class.
@@ -58,8 +60,12 @@ def textx_isinstance(obj: Any, obj_cls: type[Any]) -> bool:
     ):
         return True
     if hasattr(obj_cls, "_tx_inh_by"):
+        # Abstract rules may reference each other in a cycle.
+        if _visited is None:
+            _visited = set()
+        _visited.add(id(obj_cls))
         for cls in obj_cls._tx_inh_by:
-            if textx_isinstance(obj, cls):
+            if id(cls) not in _visited and textx_isinstance(obj, cls, _visited):
                 return True
     return False
 
